@@ -5,7 +5,7 @@ ID = 'C11'
 FLAVORS = ['default']
 RULE = ('REG histories: (a) breadth-first, every sequence of <= 2 (quick) / 3 (thorough) operations over the alphabet {write of each combination of three representative bits '
         '(bit 6, bit 9, bit 5) to every event/condition/enable register and SRE, through SCPI_RegSet and through *ESE/*SRE/STAT:...:ENAB, push of 3 codes, pop, clear, *CLS, '
-        '*ESR?, STAT:OPER?, STAT:QUES?, STAT:PRES, SYST:ERR?}; (b) random walks of 40 operations over full 16-bit values. The invariant is evaluated after every operation. '
+        '*ESR?, STAT:OPER?, STAT:QUES?, STAT:PRES, SYST:ERR?}; (b) random walks of 40 operations over full 16-bit values, every fifth of them on a context initialised without an error callback (REGN). The invariant is evaluated after every operation. '
         'Non-trivial: a history in which the status byte changes at least once; distinct = distinct lines.')
 MODELLED = 'SCPI_RegSet (table-driven propagation), RegSetBits/ClearBits, ErrorEmit/EmitEmpty, push/pop/clear, *CLS are modelled in RegModel; the command wrappers (*ESE, *SRE, *ESR?, STAT:...) are exercised on the implementation and mapped to the register write they stand for'
 ASSUMPTIONS = ['direct writes to the status byte itself are not among the property\'s operations (DESIGN.md section 9)']
@@ -57,7 +57,7 @@ def streams(tier, rng):
                     cases.append(reggen.line(2, [a, b, c]))
     yield {'name': 'bfs3bit', 'cases': cases, 'project': reggen.project, 'oracle': oracle,
            'nontrivial': lambda c, o: c if len(set(s[1][0] for s in reggen.parse_out(o))) > 1 else None}
-    walks = [reggen.line(rng.choice([1, 2, 3, 4]), reggen.random_walk(rng, 40)) for _ in range(1500 if tier == 'quick' else 40000)]
+    walks = [reggen.line(rng.choice([1, 2, 3, 4]), reggen.random_walk(rng, 40), noerr=(k % 5 == 4)) for k in range(1500 if tier == 'quick' else 40000)]
     # regression input of the fixed defect (observation 10): error first, enable later
     walks.append(reggen.line(2, ['P -113', reggen.cmd('*ESE 32', 'W:3:32'), reggen.cmd('*ESE 0', 'W:3:0')]))
     yield {'name': 'walk16bit', 'cases': walks, 'project': reggen.project, 'oracle': oracle,
